@@ -415,9 +415,11 @@ structure Observed where
 def hasRow (rows : List OptRow) (n : Str) : Bool := rows.any (fun r => decide (r.name = n))
 
 /-- the row that describes the option: `name` at top level, `sub:name` in a subproject; a builtin option without
-per-subproject row is described by the global row -/
+per-subproject row is described by the global row, a `build.` option without row of its own by the host row -/
 def rowNameFor (rows : List OptRow) (o : Observed) : Str :=
-  if o.sub.isEmpty then o.name
+  if o.sub.isEmpty then
+    -- `build.<opt>` in a native build: the build machine is the host machine, there is no separate row
+    if o.builtin && startsWith o.name "build.".toList && !hasRow rows o.name then o.name.drop 6 else o.name
   else
     let q := o.sub ++ ':' :: o.name
     if o.builtin && !hasRow rows q then o.name else q
